@@ -77,7 +77,7 @@ DEVIATIONS = {
     "del_off_by_one": ("H_DelIndex", dict(HttpSet="idx", MaxHttp=2)),
     "neg_wraps": ("H_DelIndex", dict(HttpSet="idx", MaxHttp=2)),
     "oob_clamps": ("H_DelIndex", dict(HttpSet="idx", MaxHttp=2)),
-    "idx_le_len": ("H_DelIndex", dict(HttpSet="idx", MaxHttp=2)),
+    "oob_ok": ("H_DelIndex", dict(HttpSet="idx", MaxHttp=2)),
     "unknown_key_404": ("H_Key", dict(HttpSet="key", MaxHttp=2)),
 }
 QUICK_DEVS = ["last_prefix", "apply_twice", "no_error_reply", "split_fields", "cap_off_by_one", "del_off_by_one", "neg_wraps",
@@ -92,14 +92,28 @@ WITNESSES = {      # non-guarantee -> constants of a configuration in which TLC 
     "DoubleSpaceRefused": dict(ScriptSet="space", **FREE),
     "PrefixHandler": LOCK, "ExtraIgnored": LOCK,
     "NonNumericDeletesFirst": dict(HttpSet="idx", MaxHttp=1), "NegativeNoResponse": dict(HttpSet="idx", MaxHttp=1),
+    "NotFoundNoResponse": dict(HttpSet="idx", MaxHttp=1),
     "UnknownKeyOk": dict(HttpSet="key", MaxHttp=1), "PostRouteRefused": dict(HttpSet="key", MaxHttp=1),
 }
 QUICK_WITS = ["MergedSilentOk", "FragmentApplied", "Truncated", "EmptyToken", "PrefixHandler", "NonNumericDeletesFirst",
-              "NegativeNoResponse"]
+              "NegativeNoResponse", "NotFoundNoResponse"]
+
+
+SMALL_JVM = "-XX:TieredStopAtLevel=1 -XX:ParallelGCThreads=2 -XX:CICompilerCount=1"
+
+
+def small_jvm(on):
+    """the many TLC runs of a few hundred states spend their time in JVM start-up and JIT compilation: C1 only, two GC
+    threads (HotSpot reads _JAVA_OPTIONS; only the TLC processes started by this check see it)"""
+    if on:
+        os.environ["_JAVA_OPTIONS"] = SMALL_JVM
+    else:
+        os.environ.pop("_JAVA_OPTIONS", None)
 
 
 def model_check(ctx):
     q = ctx.quick()
+    small_jvm(q)
     if os.environ.get("VERIF_DEV_SKIP_MC"):
         ctx.note("model checking skipped (VERIF_DEV_SKIP_MC)")
         return
@@ -107,10 +121,10 @@ def model_check(ctx):
     ctx.specdir()
     # (a) the guarantees hold
     if q:
-        good = [("mc_lock", C(HttpSet="few", MaxHttp=1, **LOCK)),
-                ("mc_pair", C(Cap=8, ScriptSet="pair", MaxReads=3)),
+        good = [("mc_lock", C(**LOCK)),
+                ("mc_pair", C(Cap=8, ScriptSet="pair", MaxReads=3, HttpSet="few", MaxHttp=1)),
                 ("mc_merge", C(Cap=20, ScriptSet="merge", MaxReads=2)),
-                ("mc_long", C(Cap=12, ScriptSet="long", MaxReads=3)),
+                ("mc_long", C(Cap=12, ScriptSet="long", MaxReads=2)),
                 ("mc_space", C(Cap=16, ScriptSet="space", MaxReads=2)),
                 ("mc_http_idx", C(HttpSet="idx", MaxHttp=2)),
                 ("mc_http_key", C(HttpSet="key", MaxHttp=2))]
@@ -132,6 +146,7 @@ def model_check(ctx):
     with ThreadPoolExecutor(max_workers=4 if q else 2) as ex:
         list(ex.map(run_good, good))
 
+    small_jvm(True)
     # (b) the non-guarantees are reachable, (c) the deviations are rejected, (d) the ideal index rule is not met
     jobs = []
     for w in (QUICK_WITS if q else sorted(WITNESSES)):
@@ -170,8 +185,8 @@ def gen_cases(ctx, rng):
         fams.setdefault(c["fam"], []).append(c)
     for f in fams.values():
         f.sort(key=lambda c: json.dumps(c, sort_keys=True))
-    quota = dict(whole=(62, 999), cut1=(9, 99), cut2=(110, 9999), cut3=(30, 9999), long=(19, 99), ends=(40, 999),
-                 hidx=(70, 999), hkey=(20, 999), hpost=(11, 99), mixed=(3, 99))
+    quota = dict(whole=(62, 999), cut1=(9, 99), cut2=(60, 9999), cut3=(16, 9999), long=(19, 99), ends=(24, 999),
+                 hidx=(50, 999), hkey=(14, 999), hpost=(11, 99), mixed=(3, 99))
     pick = []
     for f in sorted(fams):
         n = quota[f][0 if ctx.quick() else 1]
@@ -366,6 +381,7 @@ def run(ctx):
     rng = random.Random(ctx.seed)
     banner, errs = source_facts(ctx)
     model_check(ctx)
+    small_jvm(q)
     picked, fam_sizes = gen_cases(ctx, rng)
     cases = concretise(ctx, picked)
     byid = {c["id"]: c for c in cases}
@@ -403,6 +419,7 @@ def run(ctx):
             c["id"], c["fam"], i, json.dumps(b[i])[:500], json.dumps([x for x in b[max(1, i - 4):i]])[:900]),
             dict(case=c, events=b[1:i + 3]))
     good = [b for b in blocks if not any(b is rb for rb, _ in rej)]
+    small_jvm(True)
     selftest(ctx, good, strict=not ctx.violations)
     coverage(ctx, cases, blocks, nacc, fam_sizes, info)
 
@@ -417,13 +434,13 @@ def selftest(ctx, good, strict=True):
     def first(b, p, start=0):
         return next((i for i in range(start, len(b)) if p(b[i])), None)
 
-    def probe(name, pred, mut):
+    def probe(name, pred, mut, consts=None):
         for b in good:
             i = first(b, pred)
             if i is not None:
                 b2 = copy.deepcopy(b)
                 lo = mut(b2, i)
-                jobs.append((name, b2, i if lo is None else lo))
+                jobs.append((name, b2, i if lo is None else lo, consts))
                 return
     probe("read_text", lambda r: r["ev"] == "read" and r["text"].startswith("addBlack prefix"),
           lambda b, i: b[i].update(text=b[i]["text"].replace("addBlack prefix", "addBlack sub")))
@@ -449,18 +466,26 @@ def selftest(ctx, good, strict=True):
         b[j]["text"] = b[i]["data"].strip()
         return j
     probe("read_longer_than_buffer", lambda r: r["ev"] == "send" and r["solo"] and len(r["data"].strip()) > CAP + 1 and "\n" not in r["data"].strip(), long_mut)
+    # the unchanged record against the model of the INTENDED behaviour: it cannot explain what the code did
+    keep = lambda b, i: None
+    probe("model_notfound_answered", lambda r: r["ev"] == "http" and r["st"] == 0 and idx_class(r["q"]["idx"]) in ("number", "huge", "empty"),
+          keep, dict(Mutant="notfound_answered", Cap=CAP))
+    probe("model_idx_strict", lambda r: r["ev"] == "http" and r["q"]["m"] == "DELETE" and r["q"]["idx"] == "x" and r["st"] == 200,
+          keep, dict(Mutant="idx_strict", Cap=CAP))
+    probe("model_split_fields", lambda r: r["ev"] == "read" and r["text"].startswith("addRoute sendAllMatch") and "  " in r["text"],
+          lambda b, i: i + 1, dict(Mutant="split_fields", Cap=CAP))
     names = [j[0] for j in jobs]
-    need = {"read_text", "reply_class", "reply_dropped", "banner_twice", "snapshot_entry_missing", "http_status",
+    need = {"model_notfound_answered", "model_idx_strict", "model_split_fields", "read_text", "reply_class", "reply_dropped", "banner_twice", "snapshot_entry_missing", "http_status",
             "http_nonnumeric_refused", "sent_byte_changed", "read_longer_than_buffer"}
     if set(names) != need and strict:
         raise Machinery("binding self-test: the accepted cases do not offer every probe (missing %s)" % sorted(need - set(names)))
     if ctx.quick():
         jobs = [j for j in jobs if j[0] in ("read_text", "reply_dropped", "snapshot_entry_missing", "http_nonnumeric_refused",
-                                            "read_longer_than_buffer")]
+                                            "read_longer_than_buffer", "model_notfound_answered")]
 
     def one(job):
-        name, b2, lo = job
-        _, rej = validate(ctx, [b2], tag="self_" + name, own_dir="spec_self_" + name)
+        name, b2, lo, consts = job
+        _, rej = validate(ctx, [b2], tag="self_" + name, own_dir="spec_self_" + name, consts=consts)
         return name, (bool(rej) and rej[0][1] >= lo)
     before = ctx.cov["traces_validated_against_impl"]
     with ThreadPoolExecutor(max_workers=4) as ex:
